@@ -100,10 +100,12 @@ pub fn replay(cases: &str, verdicts: &str) {
 pub fn record(seed: u64, nev: usize, out: &str, maxlen: i64) {
     let mut rng = Lcg::new(seed);
     let mut t = TraceOut::new(out);
-    for _ in 0..nev {
-        let n = rng.range(2, maxlen) as usize;
-        let x: Vec<f64> = (0..n).map(|_| rng.range(-60, 60) as f64).collect();
-        let y: Vec<f64> = (0..n).map(|_| rng.range(-60, 60) as f64).collect();
+    // a few long vectors (lengths around and between multiples of 512, small entries so that TLC's 32-bit sums suffice)
+    let long = [513usize, 640, 1000, 1024, 1025, 1400];
+    for ev in 0..(nev + long.len()) {
+        let (n, amp) = if ev < nev { (rng.range(2, maxlen) as usize, 60) } else { (long[ev - nev], 5) };
+        let x: Vec<f64> = (0..n).map(|_| rng.range(-amp, amp) as f64).collect();
+        let y: Vec<f64> = (0..n).map(|_| rng.range(-amp, amp) as f64).collect();
         let r = guard(|| vec![mean(&x), welford_mean(&x), var(&x), sample_var(&x), covariance(&x, &y), sample_covariance(&x, &y),
                               sample_covariance_onepass(&x, &y), sample_covariance_online(&x, &y), min(&x), max(&x), argmin(&x) as f64, argmax(&x) as f64]);
         match r {
